@@ -67,3 +67,51 @@ def rabin_fingerprint(data):
     # Although not mentioned in the Avro specification, the Java
     # implementation gives fingerprint bytes in little-endian order
     return result.to_bytes(length=8, byteorder="little", signed=False).hex()
+
+
+def default_to_python(default, schema, named_schemas):
+    """Converts the JSON form of a field default into the Python value that the
+    writers, the validator and the readers work with.
+
+    The specification writes defaults of bytes and fixed fields as strings whose
+    code points are the byte values; everything else already has its Python
+    form. For unions the default belongs to the first branch."""
+    if isinstance(schema, list):
+        if not schema:
+            return default
+        return default_to_python(default, schema[0], named_schemas)
+    if isinstance(schema, dict):
+        schema_type = schema["type"]
+    else:
+        schema_type = schema
+        if schema_type not in PRIMITIVES:
+            definition = named_schemas.get(schema_type)
+            if definition is None:
+                return default
+            return default_to_python(default, definition, named_schemas)
+
+    if schema_type in ("bytes", "fixed"):
+        if isinstance(default, str):
+            return default.encode("iso-8859-1")
+    elif schema_type == "array":
+        if isinstance(default, list) and isinstance(schema, dict):
+            return [
+                default_to_python(item, schema["items"], named_schemas)
+                for item in default
+            ]
+    elif schema_type == "map":
+        if isinstance(default, dict) and isinstance(schema, dict):
+            return {
+                key: default_to_python(value, schema["values"], named_schemas)
+                for key, value in default.items()
+            }
+    elif schema_type in ("record", "error"):
+        if isinstance(default, dict) and isinstance(schema, dict):
+            converted = dict(default)
+            for field in schema.get("fields", []):
+                if field["name"] in default:
+                    converted[field["name"]] = default_to_python(
+                        default[field["name"]], field["type"], named_schemas
+                    )
+            return converted
+    return default
